@@ -82,6 +82,14 @@ def run_topo(rng, thorough, out):
         res.append({"els": [[int(x) for x in c] for c in els], "nv": nv, "kind": kind, "exc": name,
                     "tables": c11_impl.tables(g) if g is not None else None})
     out["topo"] = res
+    # elements_adjacent (the regular kernels skip exactly these pairs) on all ordered pairs of some grids
+    from bempp_cl.core.numba_kernels import elements_adjacent
+    adj = []
+    for c in res[-25:]:
+        el = np.array(c["els"], dtype="uint32").T
+        adj.append({"els": c["els"], "adj": [bool(elements_adjacent.py_func(el, i, j))
+                                             for i in range(el.shape[1]) for j in range(el.shape[1])]})
+    out["adjacent"] = adj
 
 
 def run_rule(rng, thorough, out):
@@ -111,53 +119,65 @@ def run_rule(rng, thorough, out):
 
 
 # ------------------------------------------------------------------------------------------------------------
-def calderon_residuals(v, e, a, b, orders, identity=None):
-    """Residuals of the identities for u = a.x + b on the closed mesh (v, e) for each (regular, singular) order.
-    identity = 1: (1/2 M + K) g = V psi;  2: W g = (1/2 M' - K') psi;  None: both.  Entry None when not computed."""
+def operator_vectors(v, e, a, b, orders, which):
+    """The vectors entering the identities for u = a.x + b on the closed mesh (v, e), one per (regular, singular) order:
+    which = "V": V psi;  "K": (1/2 M + K) g;  "W": W g;  "Kt": (1/2 M' - K') psi
+    (g = vertex values of u in P1, psi = element values of a.n in DP0)."""
     import bempp_cl.api as api
     from bempp_cl.api.operators.boundary import laplace, sparse
     g = api.Grid(v, e)
     p1 = api.function_space(g, "P", 1)
     dp0 = api.function_space(g, "DP", 0)
-    gv = a @ g.vertices + b                               # vertex values of u
-    psi = g.normals @ a                                   # element values of a.n
+    gv = a @ g.vertices + b
+    psi = g.normals @ a
     res = []
     for reg, sing in orders:
         api.GLOBAL_PARAMETERS.quadrature.regular = reg
         api.GLOBAL_PARAMETERS.quadrature.singular = sing
-        r1 = r2 = None
-        if identity in (None, 1):
-            V = laplace.single_layer(dp0, dp0, dp0, assembler="dense").weak_form().to_dense()
+        if which == "V":
+            vec = laplace.single_layer(dp0, dp0, dp0, assembler="dense").weak_form().to_dense() @ psi
+        elif which == "K":
             K = laplace.double_layer(p1, dp0, dp0, assembler="dense").weak_form().to_dense()
             Mm = sparse.identity(p1, dp0, dp0).weak_form().to_sparse()
-            rhs1 = V @ psi
-            r1 = float(np.linalg.norm(0.5 * (Mm @ gv) + K @ gv - rhs1) / np.linalg.norm(rhs1))
-        if identity in (None, 2):
-            W = laplace.hypersingular(p1, p1, p1, assembler="dense").weak_form().to_dense()
+            vec = 0.5 * (Mm @ gv) + K @ gv
+        elif which == "W":
+            vec = laplace.hypersingular(p1, p1, p1, assembler="dense").weak_form().to_dense() @ gv
+        else:
             Kt = laplace.adjoint_double_layer(dp0, p1, p1, assembler="dense").weak_form().to_dense()
             Mt = sparse.identity(dp0, p1, p1).weak_form().to_sparse()
-            rhs2 = 0.5 * (Mt @ psi) - Kt @ psi
-            r2 = float(np.linalg.norm(W @ gv - rhs2) / np.linalg.norm(rhs2))
-        res.append([r1, r2])
+            vec = 0.5 * (Mt @ psi) - Kt @ psi
+        res.append([float(x) for x in vec])
     return res
 
 
-def judge(seq, hard):
+def calderon_residuals(v, e, a, b, orders):
+    """Both residuals for each order (single process; used by replays)."""
+    vec = {w: operator_vectors(v, e, a, b, orders, w) for w in ("V", "K", "W", "Kt")}
+    return [residual_pair(vec["V"][k], vec["K"][k], vec["W"][k], vec["Kt"][k]) for k in range(len(orders))]
+
+
+def residual_pair(Vpsi, Kg, Wg, Ktpsi):
+    n = lambda x: sum(t * t for t in x) ** 0.5
+    return [n([p - q for p, q in zip(Kg, Vpsi)]) / n(Vpsi), n([p - q for p, q in zip(Wg, Ktpsi)]) / n(Ktpsi)]
+
+
+TARGET = 1e-6
+
+
+def judge(seq):
     """Verdict on one residual sequence (orders raised along the sequence).  Convergence, never one order:
-    ok        final residual below 1e-6
-    slow      (only meshes marked hard: coarse and non-convex) not yet below 1e-6 at the highest order tried, but
-              strictly decreasing at every step, reduced at least tenfold overall and below 1e-4
-    fail      anything else"""
-    if seq[-1] < 1e-6:
-        return "ok"
-    if hard and all(b < a for a, b in zip(seq, seq[1:])) and seq[-1] * 10 <= seq[0] and seq[-1] < 1e-4:
-        return "slow"
-    return "fail"
+    ok    the residual falls below 1e-6 (the last one is below) and never grows by more than a factor 2 from one
+          step to the next while it is above 1e-6
+    fail  it does not get below 1e-6 up to the highest order tried, or grows with the order"""
+    for x, y in zip(seq, seq[1:]):
+        if x >= TARGET and y > 2 * x:
+            return "fail"
+    return "ok" if seq[-1] < TARGET else "fail"
 
 
-def run_search(rng, thorough, out, identity=None):
-    fails = out["failures"]
-    orders = [(6, 6), (8, 8), (10, 10)]
+def search_meshes(rng, thorough):
+    """The deterministic (seeded) list of search inputs: (tag, name, v, e, a, b, orders)."""
+    orders = [(6, 6), (8, 8), (10, 10), (12, 12)]
     names = ["tetrahedron", "octahedron", "cube12", "dent_equator", "two_tetrahedra"]
     gens = dict(M.CLOSED)
     gens["two_tetrahedra"] = lambda: M.two_components(M.tetrahedron, M.tetrahedron, shift=(2.5, 0.3, -0.4))
@@ -165,12 +185,10 @@ def run_search(rng, thorough, out, identity=None):
         names += ["dented", "lshape", "two_components", "sphere1", "torus6x4"]
         gens["sphere1"] = lambda: M.sphere(1)
         gens["torus6x4"] = lambda: M.torus(6, 4)
-        orders = [(6, 6), (8, 8), (10, 10), (12, 10)]
-    worst = {}
-    evals = 0
-    reps = 2 if thorough else 1
+        orders = orders + [(14, 14)]
+    out = []
     for name in names:
-        for rep in range(reps):
+        for rep in range(2 if thorough else 1):
             v, e = gens[name]()
             tag = name
             if rep or name in ("octahedron", "dent_equator", "two_tetrahedra"):
@@ -179,28 +197,23 @@ def run_search(rng, thorough, out, identity=None):
                 tag = name + "+motion+relabel"
             a = rng.normal(size=3)
             a /= np.linalg.norm(a)
-            b = float(rng.normal())
-            t0 = time.time()
-            r = calderon_residuals(v, e, a, b, orders, identity)
-            evals += len(orders)
-            log("calderon %s: %s (%.1fs)" % (tag, r, time.time() - t0))
-            data = {"mesh": name, "vertices": v.tolist(), "elements": e.tolist(), "a": a.tolist(), "b": b,
-                    "orders": orders, "residuals": r, "identity": identity}
-            verdicts = []
-            for idx, ident in ((0, "first identity (1/2 M + K) g = V psi"), (1, "second identity W g = (1/2 M' - K') psi")):
-                seq = [x[idx] for x in r]
-                if seq[0] is None:
-                    continue
-                vd = judge(seq, name in M.HARD)
-                verdicts.append(vd)
-                if vd == "fail":
-                    which = "first" if idx == 0 else "second"
-                    fails.append({"signature": "calderon:%s-identity-residual-does-not-fall-below-1e-6" % which,
-                                  "what": "%s: residuals %s at orders %s on %s" % (ident, ["%.1e" % x for x in seq], orders, tag),
-                                  "data": data})
-            worst["%s [identity %s]" % (tag, identity or "1+2")] = {"residuals": r, "verdicts": verdicts}
-    out["search_evals"] = evals
-    out["worst"] = worst
+            # coarse non-convex meshes converge more slowly (adjacent elements face each other): two more orders
+            o = orders + [(orders[-1][0] + 2, orders[-1][1] + 2)] if name in M.HARD else orders
+            out.append((tag, name, v, e, a, float(rng.normal()), o))
+    return out
+
+
+def run_search(rng, thorough, out, which):
+    """One operator family per process (numba compiles every kernel family anew in each process)."""
+    res = []
+    for tag, name, v, e, a, b, orders in search_meshes(rng, thorough):
+        t0 = time.time()
+        vecs = operator_vectors(v, e, a, b, orders, which)
+        log("%s %s: %.1fs" % (which, tag, time.time() - t0))
+        res.append({"tag": tag, "mesh": name, "vertices": v.tolist(), "elements": e.tolist(), "a": a.tolist(), "b": b,
+                    "orders": orders, "vectors": vecs})
+    out["vectors"] = {"which": which, "cases": res}
+    out["search_evals"] = sum(len(c["orders"]) for c in res)
 
 
 def main():
@@ -214,7 +227,7 @@ def main():
     if "rule" in parts:
         run_rule(rng, thorough, out)
     if "search" in parts:
-        run_search(rng, thorough, out, cfg.get("identity"))
+        run_search(rng, thorough, out, cfg["operator"])
     if "topo" in parts:
         run_topo(rng, thorough, out)
     if "replay" in parts:
@@ -225,7 +238,7 @@ def main():
         out["worst"] = {"replay": r}
         for idx in (0, 1):
             seq = [x[idx] for x in r]
-            if judge(seq, d.get("mesh") in M.HARD) == "fail":
+            if judge(seq) == "fail":
                 out["failures"].append({"signature": "calderon:%s-identity-residual-does-not-fall-below-1e-6" % ("first" if idx == 0 else "second"),
                                         "what": "replayed: residuals %s" % seq, "data": d})
     print("@@JSON " + json.dumps(out))
